@@ -125,8 +125,10 @@ def fill_depressions(
                         q, (np.float64(z1), np.uint8(0), np.uint32(r), np.uint32(c))
                     )
                     queued[r, c] = True
-                    for dr, dc in zip(drs, dcs):  # (re)visit neighbors
-                        done[r + dr, c + dc] = False
+                    for dr1, dc1 in zip(drs, dcs):  # (re)visit neighbors
+                        r1, c1 = r + dr1, c + dc1
+                        if r1 >= 0 and r1 < nrow and c1 >= 0 and c1 < ncol:
+                            done[r1, c1] = False
                     continue
                 elif delv[r, c] > 0:  # reset cell if previously filled & revisited
                     queued[r, c] = False
